@@ -802,12 +802,12 @@ fn run_queries(
 // part 2: associations, implementation, root tests, indexes, entity type, has_relationship
 // ------------------------------------------------------------------------------------------------
 /// a record for `has_relationship`: the name the resolver knows it under, and its tags (`Some(id)` = a Ref)
-#[derive(Clone, Debug)]
+#[derive(Clone, Debug, PartialEq)]
 pub struct RelRec {
     pub key: Option<String>,
     pub tags: Vec<(String, Option<String>)>,
 }
-#[derive(Clone, Debug)]
+#[derive(Clone, Debug, PartialEq)]
 pub struct RelQuery {
     pub subject: usize,
     pub rel: String,
